@@ -338,8 +338,8 @@ Qed.
 (* ------------------------------------------------------------------ *)
 (*  Abstraction of a mirror state to a specification state             *)
 (* ------------------------------------------------------------------ *)
-Definition outs_of (log : list line) : list (Z * Z) :=
-  flat_map (fun l => match l with [k; t; _; _; v] => if k =? 20 then [(t, v)] else [] | _ => [] end) log.
+Definition is_rec (l : line) : bool := match l with k :: _ => (k =? 20) || (k =? 21) | [] => false end.
+Definition outs_of (log : list line) : list line := filter is_rec log.
 Definition cycles_of (log : list line) : list Z :=
   flat_map (fun l => match l with [k; t] => if k =? 10 then [t] else [] | _ => [] end) log.
 
@@ -349,13 +349,13 @@ Definition abs (m : mst) : sst :=
        | Some a, Some k => match getg a (m_w m) with Some c => Some (k, c_inst c) | None => None end
        | _, _ => None
        end)
-      (m_ninst m) (outs_of (m_log m)) (cycles_of (m_log m)) (m_err m).
+      (m_ninst m) (m_out m) (outs_of (m_log m)) (cycles_of (m_log m)) (m_err m).
 
 (* lines that are neither cycle markers nor recorder lines *)
 Definition quiet (l : line) : Prop := outs_of [l] = [] /\ cycles_of [l] = [].
 
 Lemma outs_of_app a b : outs_of (a ++ b) = outs_of a ++ outs_of b.
-Proof. unfold outs_of. apply flat_map_app. Qed.
+Proof. unfold outs_of. apply filter_app. Qed.
 Lemma cycles_of_app a b : cycles_of (a ++ b) = cycles_of a ++ cycles_of b.
 Proof. unfold cycles_of. apply flat_map_app. Qed.
 
@@ -375,16 +375,17 @@ Qed.
 
 Lemma eval_line_quiet t id l : eval_line t id l -> quiet l.
 Proof.
-  intros (k & rest & -> & Hk). unfold quiet, outs_of, cycles_of. simpl.
+  intros (k & rest & -> & Hk). unfold quiet, outs_of, cycles_of, is_rec. simpl.
+  replace ((k =? 20) || (k =? 21)) with false by lia.
   destruct rest as [|a [|b [|c r]]]; simpl; auto.
-  replace (k =? 20) with false by lia. auto.
 Qed.
 
-Lemma quiet_lit k rest : k <> 10 -> k <> 20 -> quiet (k :: rest).
+Lemma quiet_lit k rest : k <> 10 -> k <> 20 -> k <> 21 -> quiet (k :: rest).
 Proof.
-  intros H1 H2. unfold quiet, outs_of, cycles_of. simpl.
-  destruct rest as [|a [|b [|c [|d [|e r]]]]]; simpl; auto;
-    try (replace (k =? 10) with false by lia); try (replace (k =? 20) with false by lia); auto.
+  intros H1 H2 H3. unfold quiet, outs_of, cycles_of, is_rec. simpl.
+  replace ((k =? 20) || (k =? 21)) with false by lia.
+  destruct rest as [|a [|b r]]; simpl; auto.
+  replace (k =? 10) with false by lia. auto.
 Qed.
 
 (* ------------------------------------------------------------------ *)
@@ -408,9 +409,9 @@ Definition srcs_ok (now : Z) (srcs : list srcv) : Prop :=
   exists s0 s1 s2, srcs = [s0; s1; s2] /\ snd s0 <= now /\ snd s1 <= now /\ snd s2 <= now.
 
 Definition Good (D : Z) (m : mst) : Prop :=
-  0 <= m_now m /\ m_err m = 0 /\ srcs_ok (m_now m) (m_srcs m) /\ snd (m_out m) <= m_now m /\
+  0 <= m_now m /\ m_err m = 0 /\ srcs_ok (m_now m) (m_srcs m) /\ o_lmt (m_out m) <= m_now m /\
   match w_active (m_w m) with
-  | None => m_w m = empty_w /\ m_pslot m <= m_now m /\ fst (hd no_src (m_srcs m)) = None
+  | None => m_w m = empty_w /\ m_pslot m <= m_now m /\ fst (hd no_src (m_srcs m)) = None /\ m_out m = out0
   | Some a => exists c k, getg a (m_w m) = Some c /\ w_akey (m_w m) = Some k /\
                           idle_ok (m_now m) (m_pslot m) c /\ other_ok (m_w m) a /\
                           body_bounded D (br_body (i_br (c_inst c)))
@@ -589,7 +590,8 @@ Lemma activate_post sp br k t srcs w n o lg :
   let next := match w_active w with Some a => negb a | None => false end in
   let i' := fst (inst_start t (fresh_inst br n t)) in
   exists w' c2 lg',
-    activate_branch sp br k t (mkM t srcs w t n o lg 0) = mkM t srcs w' t (n + 1) o (rev lg' ++ lg) 0 /\
+    activate_branch sp br k t (mkM t srcs w t n o lg 0) =
+      mkM t srcs w' t (n + 1) (match w_active w with Some _ => reset_out (s_set sp) t o | None => o end) (rev lg' ++ lg) 0 /\
     Forall quiet lg' /\
     w_active w' = Some next /\ w_akey w' = Some k /\ getg next w' = Some c2 /\ other_ok w' next /\
     c_inst c2 = i' /\ c_etime c2 = t /\ pre_ok t (due t (views sp t srcs i') i') c2.
@@ -611,7 +613,7 @@ Proof.
       { destruct g0 as [c'|]; [destruct Ho as [-> _]|]; reflexivity. }
       rewrite Hp, Hr. unfold switch_teardown. simpl. unfold child_stop. rewrite Hst. simpl.
       replace (t <? c_etime c) with false by lia. simpl.
-      rewrite Esc. unfold add_log, set_w. simpl. rewrite parent_schedule_all_now by exact Fps.
+      rewrite Esc. unfold add_log, set_w, set_out. simpl. rewrite parent_schedule_all_now by exact Fps.
       eexists _, c2, [[23; t; i_id (c_inst c); 1]; [22; t; n; 0]]. split; [reflexivity|].
       split; [constructor; [apply Q23|constructor; [apply Q22|constructor]]|].
       simpl. unfold other_ok. simpl.
@@ -624,14 +626,14 @@ Proof.
       { destruct g1 as [c'|]; [destruct Ho as [-> _]|]; reflexivity. }
       rewrite Hp, Hr. unfold switch_teardown. simpl. unfold child_stop. rewrite Hst. simpl.
       replace (t <? c_etime c) with false by lia. simpl.
-      rewrite Esc. unfold add_log, set_w. simpl. rewrite parent_schedule_all_now by exact Fps.
+      rewrite Esc. unfold add_log, set_w, set_out. simpl. rewrite parent_schedule_all_now by exact Fps.
       eexists _, c2, [[23; t; i_id (c_inst c); 0]; [22; t; n; 1]]. split; [reflexivity|].
       split; [constructor; [apply Q23|constructor; [apply Q22|constructor]]|].
       simpl. unfold other_ok. simpl.
       split; [reflexivity|]. split; [reflexivity|]. split; [reflexivity|]. split; [split; reflexivity|].
       split; [exact Ic2|]. split; [exact Ec2|exact Pre2].
   - unfold empty_w in Hs. injection Hs as E0 E1 E2 E3. subst g0 g1 prev akey. unfold activate_branch. simpl. unfold switch_teardown. simpl.
-    rewrite Esc. unfold add_log, set_w. simpl. rewrite parent_schedule_all_now by exact Fps.
+    rewrite Esc. unfold add_log, set_w, set_out. simpl. rewrite parent_schedule_all_now by exact Fps.
     eexists _, c2, [[22; t; n; 0]]. split; [reflexivity|].
     split; [constructor; [apply Q22|constructor]|].
     simpl. unfold other_ok. simpl.
@@ -661,7 +663,7 @@ Lemma eval_phase_post sp t srcs w n o lg a c dueb D :
   exists c' lg' p',
     eval_phase sp t (mkM t srcs w t n o lg 0) =
       mkM t srcs (setg a (Some c') w) p' n
-          (if dueb then match r_emit r with Some v => (Some v, t) | None => o end else o)
+          (if dueb then match r_emit r with Some v => emit_out (s_set sp) t v o | None => o end else o)
           (rev lg' ++ lg) 0 /\
     Forall (eval_line t (i_id (c_inst c))) lg' /\
     c_inst c' = (if dueb then r_inst r else c_inst c) /\
@@ -675,10 +677,11 @@ Proof.
   destruct Hpost as (Pst & Pet & Pwf & Pev).
   exists (cr_child cr), (cr_log cr).
   assert (Out : match cr_emit cr with
-                | Some v => set_out (Some v, t) (add_log (cr_log cr) (set_w (setg a (Some (cr_child cr)) w) (mkM t srcs w t n o lg 0)))
+                | Some v => set_out (emit_out (s_set sp) t v (m_out (add_log (cr_log cr) (set_w (setg a (Some (cr_child cr)) w) (mkM t srcs w t n o lg 0)))))
+                                    (add_log (cr_log cr) (set_w (setg a (Some (cr_child cr)) w) (mkM t srcs w t n o lg 0)))
                 | None => add_log (cr_log cr) (set_w (setg a (Some (cr_child cr)) w) (mkM t srcs w t n o lg 0))
                 end = mkM t srcs (setg a (Some (cr_child cr)) w) t n
-                          (if dueb then match r_emit r with Some v => (Some v, t) | None => o end else o)
+                          (if dueb then match r_emit r with Some v => emit_out (s_set sp) t v o | None => o end else o)
                           (rev (cr_log cr) ++ lg) 0).
   { rewrite Eemit. fold r. destruct dueb; [destruct (r_emit r)|]; reflexivity. }
   rewrite Out.
@@ -708,24 +711,59 @@ Lemma other_ok_setg a x w : other_ok w a -> other_ok (setg a x w) a.
 Proof. unfold other_ok. rewrite getg_setg_other, prev_setg. auto. Qed.
 
 Definition spec_se (sp : swspec) (t : Z) (s : sst) : sst :=
-  let s1 := spec_switch sp t s in if negb (s_err s1 =? 0) then s1 else spec_eval sp t s1.
+  let s1 := spec_switch sp t s in if negb (s_err s1 =? 0) then s1 else spec_rec sp t (spec_eval sp t s1).
 
 Lemma spec_cycle_se sp h t s :
   spec_cycle sp h t s =
-    spec_se sp t (mkS t (apply_ticks t (s_srcs s) (ticks_at sp h t)) (s_cur s) (s_ninst s) (s_outs s)
+    spec_se sp t (mkS t (apply_ticks t (s_srcs s) (ticks_at sp h t)) (s_cur s) (s_ninst s) (s_out s) (s_outs s)
                       (t :: s_cycles s) (s_err s)).
 Proof. reflexivity. Qed.
+
+(* the recorder commutes with the abstraction *)
+Lemma rec_commutes sp t m : m_err m = 0 -> abs (rec_phase sp t m) = spec_rec sp t (abs m).
+Proof.
+  intros E. unfold rec_phase, spec_rec. rewrite E. cbn [Z.eqb negb]. change (s_out (abs m)) with (m_out m).
+  destruct (o_lmt (m_out m) =? t); [|reflexivity].
+  unfold abs, add_log. cbn [m_w m_now m_srcs m_ninst m_out m_log m_err rev app s_now s_srcs s_cur s_ninst s_out s_outs s_cycles s_err].
+  assert (Hr : is_rec (rec_line (s_set sp) t (m_out m)) = true).
+  { unfold rec_line. destruct (s_set sp); reflexivity. }
+  assert (Hc : cycles_of [rec_line (s_set sp) t (m_out m)] = []).
+  { unfold rec_line, cycles_of. destruct (s_set sp); reflexivity. }
+  change (rec_line (s_set sp) t (m_out m) :: m_log m) with ([rec_line (s_set sp) t (m_out m)] ++ m_log m).
+  rewrite outs_of_app, cycles_of_app, Hc. unfold outs_of at 1. cbn [filter]. rewrite Hr. reflexivity.
+Qed.
+
+Lemma rec_phase_fields sp t m :
+  m_now (rec_phase sp t m) = m_now m /\ m_srcs (rec_phase sp t m) = m_srcs m /\ m_w (rec_phase sp t m) = m_w m /\
+  m_pslot (rec_phase sp t m) = m_pslot m /\ m_out (rec_phase sp t m) = m_out m /\ m_err (rec_phase sp t m) = m_err m /\
+  m_ninst (rec_phase sp t m) = m_ninst m.
+Proof.
+  unfold rec_phase. destruct (negb (m_err m =? 0)); [repeat split|].
+  destruct (o_lmt (m_out m) =? t); repeat split.
+Qed.
+
+Lemma good_rec sp D t m : Good D m -> Good D (rec_phase sp t m).
+Proof.
+  intros G. destruct (rec_phase_fields sp t m) as (A & B & C & E & F & H & _).
+  unfold Good. rewrite A, B, C, E, F, H. exact G.
+Qed.
+
+Lemma emit_out_lmt sh t v o : o_lmt (emit_out sh t v o) = t.
+Proof. unfold emit_out. destruct sh; reflexivity. Qed.
+
+Lemma reset_out_lmt sh t o : o_lmt o <= t -> o_lmt (reset_out sh t o) <= t.
+Proof. unfold reset_out. destruct sh; simpl; lia. Qed.
 
 (* evaluation of the active graph and the recorder, from a state in which the
    active graph's slot says "now" exactly when its node is due *)
 Lemma eval_rec_refines sp D t srcs w n o lg a c k :
-  0 < t -> t + D < MAX_DT -> srcs_ok t srcs -> snd o < t ->
+  0 < t -> t + D < MAX_DT -> srcs_ok t srcs -> o_lmt o <= t ->
   w_active w = Some a -> getg a w = Some c -> w_akey w = Some k -> other_ok w a ->
   pre_ok t (due t (views sp t srcs (c_inst c)) (c_inst c)) c -> i_samp (c_inst c) <= t ->
   body_bounded D (br_body (i_br (c_inst c))) ->
   let m1 := mkM t srcs w t n o lg 0 in
-  let m' := rec_phase t (eval_phase sp t m1) in
-  abs m' = spec_eval sp t (abs m1) /\ Good D m'.
+  let m' := rec_phase sp t (eval_phase sp t m1) in
+  abs m' = spec_rec sp t (spec_eval sp t (abs m1)) /\ Good D m'.
 Proof.
   intros Ht HD Hsrcs Ho Ha Hg Hk Hoth Hpre Hsamp Hb m1 m'.
   set (dueb := due t (views sp t srcs (c_inst c)) (c_inst c)) in *.
@@ -733,8 +771,8 @@ Proof.
   set (r := node_eval t (views sp t srcs (c_inst c)) (c_inst c)) in *.
   assert (Hq : Forall quiet lg') by (eapply Forall_impl; [|exact Hlg]; intros l; apply eval_line_quiet).
   destruct (quiet_app lg' lg Hq) as [Qo Qc].
-  assert (Habs1 : abs m1 = mkS t srcs (Some (k, c_inst c)) n (outs_of lg) (cycles_of lg) 0).
-  { unfold abs, m1. cbn [m_w m_now m_srcs m_ninst m_log m_err]. rewrite Ha, Hk, Hg. reflexivity. }
+  assert (Habs1 : abs m1 = mkS t srcs (Some (k, c_inst c)) n o (outs_of lg) (cycles_of lg) 0).
+  { unfold abs, m1. cbn [m_w m_now m_srcs m_ninst m_out m_log m_err]. rewrite Ha, Hk, Hg. reflexivity. }
   assert (Hsamp' : i_samp (c_inst c') <= t).
   { rewrite Hinst. destruct dueb; auto.
     destruct Hpre as (_ & Hwf & _). destruct (node_eval_post t (views sp t srcs (c_inst c)) (c_inst c) D Hwf Hb HD) as (_ & _ & _ & Es & _).
@@ -743,85 +781,76 @@ Proof.
   { rewrite Hinst. destruct dueb; auto.
     destruct Hpre as (_ & Hwf & _). destruct (node_eval_post t (views sp t srcs (c_inst c)) (c_inst c) D Hwf Hb HD) as (_ & Eb & _).
     fold r in Eb. rewrite Eb. auto. }
-  assert (Hidle : forall pp, pp = p' -> idle_ok t pp c').
-  { intros pp ->. destruct Hleft as (A & B & C & E). unfold idle_ok. repeat split; auto; try apply C.
+  assert (Hidle : idle_ok t p' c').
+  { destruct Hleft as (A & B & C & E). unfold idle_ok. repeat split; auto; try apply C.
     destruct (events (i_sch (c_inst c'))); destruct E; split; auto; lia. }
-  rewrite Habs1. unfold spec_eval. cbn [s_cur s_srcs s_now s_ninst s_outs s_cycles s_err].
-  unfold alone_cycle. fold dueb. fold r.
-  unfold m', m1. rewrite Eev. unfold rec_phase. cbn [m_err Z.eqb negb m_out].
-  assert (GoodK : forall lgx, Good D (mkM t srcs (setg a (Some c') w) p' n
-                       (if dueb then match r_emit r with Some v => (Some v, t) | None => o end else o) lgx 0)).
-  { intros lgx. unfold Good. cbn [m_now m_err m_srcs m_w m_pslot]. rewrite active_setg, Ha.
-    split; [lia|]. split; [reflexivity|]. split; [exact Hsrcs|].
-    split; [cbn [m_out]; destruct dueb; [destruct (r_emit r)|]; simpl; lia|].
+  set (o' := if dueb then match r_emit r with Some v => emit_out (s_set sp) t v o | None => o end else o) in *.
+  assert (Ho' : o_lmt o' <= t).
+  { unfold o'. destruct dueb; [destruct (r_emit r)|]; auto. rewrite emit_out_lmt. lia. }
+  assert (GoodE : Good D (eval_phase sp t m1)).
+  { unfold m1. rewrite Eev. unfold Good. cbn [m_now m_err m_srcs m_w m_pslot m_out]. rewrite active_setg, Ha.
+    split; [lia|]. split; [reflexivity|]. split; [exact Hsrcs|]. split; [exact Ho'|].
     exists c', k. rewrite getg_setg, akey_setg. split; [reflexivity|]. split; [exact Hk|].
-    split; [apply Hidle; reflexivity|]. split; [apply other_ok_setg; exact Hoth|exact Hb']. }
-  destruct dueb.
-  - destruct (r_emit r) as [v|].
-    + rewrite Z.eqb_refl. split.
-      * unfold abs, add_log. cbn [m_w m_now m_srcs m_ninst m_log m_err rev app].
-        rewrite active_setg, akey_setg, Ha, Hk; cbv iota; rewrite getg_setg, Hinst.
-        change ([20; t; 1; 1; v] :: rev lg' ++ lg) with ([[20; t; 1; 1; v]] ++ (rev lg' ++ lg)).
-        rewrite outs_of_app, cycles_of_app, Qo, Qc. reflexivity.
-      * unfold add_log. apply GoodK.
-    + destruct o as [ov olm]. simpl in Ho. destruct ov as [v0|].
-      * replace (olm =? t) with false by lia. split; [|apply GoodK].
-        unfold abs. cbn [m_w m_now m_srcs m_ninst m_log m_err].
-        rewrite active_setg, akey_setg, Ha, Hk; cbv iota; rewrite getg_setg, Hinst, Qo, Qc. reflexivity.
-      * split; [|apply GoodK].
-        unfold abs. cbn [m_w m_now m_srcs m_ninst m_log m_err].
-        rewrite active_setg, akey_setg, Ha, Hk; cbv iota; rewrite getg_setg, Hinst, Qo, Qc. reflexivity.
-  - destruct o as [ov olm]. simpl in Ho. destruct ov as [v0|].
-    + replace (olm =? t) with false by lia. split; [|apply GoodK].
-      unfold abs. cbn [m_w m_now m_srcs m_ninst m_log m_err].
-      rewrite active_setg, akey_setg, Ha, Hk; cbv iota; rewrite getg_setg, Hinst, Qo, Qc. reflexivity.
-    + split; [|apply GoodK].
-      unfold abs. cbn [m_w m_now m_srcs m_ninst m_log m_err].
-      rewrite active_setg, akey_setg, Ha, Hk; cbv iota; rewrite getg_setg, Hinst, Qo, Qc. reflexivity.
+    split; [exact Hidle|]. split; [apply other_ok_setg; exact Hoth|exact Hb']. }
+  split; [|apply good_rec; exact GoodE].
+  unfold m'. rewrite rec_commutes by (unfold m1; rewrite Eev; reflexivity). f_equal.
+  rewrite Habs1. unfold m1. rewrite Eev. unfold spec_eval. cbn [s_cur s_srcs s_now s_ninst s_out s_outs s_cycles s_err].
+  unfold alone_cycle. fold dueb. fold r.
+  unfold abs. cbn [m_w m_now m_srcs m_ninst m_out m_log m_err].
+  rewrite active_setg, akey_setg, Ha, Hk; cbv iota; rewrite getg_setg, Hinst, Qo, Qc.
+  unfold o'. destruct dueb; [destruct (r_emit r)|]; reflexivity.
 Qed.
 
 (* activation followed by the evaluation of the new graph and the recorder *)
 Lemma act_path sp D t srcs w n o lg k br :
-  0 < t < MAX_DT -> t + D < MAX_DT -> srcs_ok t srcs -> snd o < t -> store_ok t w ->
+  0 < t < MAX_DT -> t + D < MAX_DT -> srcs_ok t srcs -> o_lmt o <= t -> store_ok t w ->
   body_bounded D (br_body br) ->
   let m1 := activate_branch sp br k t (mkM t srcs w t n o lg 0) in
-  let m' := rec_phase t (eval_phase sp t m1) in
+  let m' := rec_phase sp t (eval_phase sp t m1) in
   m_err m1 = 0 /\
-  abs m' = spec_eval sp t (mkS t srcs (Some (k, fst (inst_start t (fresh_inst br n t)))) (n + 1)
-                               (outs_of lg) (cycles_of lg) 0) /\
+  abs m' = spec_rec sp t (spec_eval sp t
+             (mkS t srcs (Some (k, fst (inst_start t (fresh_inst br n t)))) (n + 1)
+                  (match w_active w with Some _ => reset_out (s_set sp) t o | None => o end)
+                  (outs_of lg) (cycles_of lg) 0)) /\
   Good D m'.
 Proof.
   intros Ht HD Hsrcs Ho Hst Hb m1 m'.
   destruct (activate_post sp br k t srcs w n o lg Ht Hst) as (w' & c2 & lga & Eact & Qa & Aact & Akey & Ag & Aoth & Ainst & Aet & Apre).
   unfold m', m1. rewrite Eact. split; [reflexivity|].
   set (i' := fst (inst_start t (fresh_inst br n t))) in *.
+  set (o1 := match w_active w with Some _ => reset_out (s_set sp) t o | None => o end) in *.
+  assert (Ho1 : o_lmt o1 <= t) by (unfold o1; destruct (w_active w); auto; apply reset_out_lmt; auto).
   assert (Ei : i' = mkInst br n 0 (if b_sos (br_body br) then mkSched [(t, 0)] [] else empty_sched) t).
   { unfold i'. apply inst_start_fresh. lia. }
   rewrite <- Ainst in Apre.
   assert (Hs2 : i_samp (c_inst c2) <= t) by (rewrite Ainst, Ei; simpl; lia).
   assert (Hb2 : body_bounded D (br_body (i_br (c_inst c2)))) by (rewrite Ainst, Ei; simpl; exact Hb).
-  destruct (eval_rec_refines sp D t srcs w' (n + 1) o (rev lga ++ lg) _ c2 k (proj1 Ht) HD Hsrcs Ho Aact Ag Akey Aoth Apre Hs2 Hb2) as [Eabs HG].
-  split; [|exact HG]. rewrite Eabs. f_equal.
-  unfold abs. cbn [m_w m_now m_srcs m_ninst m_log m_err]. rewrite Aact, Akey, Ag, Ainst.
+  destruct (eval_rec_refines sp D t srcs w' (n + 1) o1 (rev lga ++ lg) _ c2 k (proj1 Ht) HD Hsrcs Ho1 Aact Ag Akey Aoth Apre Hs2 Hb2) as [Eabs HG].
+  split; [|exact HG]. rewrite Eabs. f_equal. f_equal.
+  unfold abs. cbn [m_w m_now m_srcs m_ninst m_out m_log m_err]. rewrite Aact, Akey, Ag, Ainst.
   destruct (quiet_app lga lg Qa) as [Qo Qc]. rewrite Qo, Qc. reflexivity.
 Qed.
 
-Lemma rec_phase_noop t srcs w p n o lg : snd o < t -> rec_phase t (mkM t srcs w p n o lg 0) = mkM t srcs w p n o lg 0.
+Lemma rec_phase_noop sp t srcs w p n o lg :
+  o_lmt o < t -> rec_phase sp t (mkM t srcs w p n o lg 0) = mkM t srcs w p n o lg 0.
 Proof.
-  intros Ho. unfold rec_phase. cbn [m_err Z.eqb negb m_out]. destruct o as [[v|] lm]; auto.
-  simpl in Ho. replace (lm =? t) with false by lia. reflexivity.
+  intros Ho. unfold rec_phase. cbn [m_err Z.eqb negb m_out].
+  replace (o_lmt o =? t) with false by lia. reflexivity.
 Qed.
 
+Lemma spec_rec_noop sp t s : o_lmt (s_out s) < t -> spec_rec sp t s = s.
+Proof. intros H. unfold spec_rec. replace (o_lmt (s_out s) =? t) with false by lia. reflexivity. Qed.
+
 Lemma switch_refines sp D t srcs w n o lg :
-  0 < t < MAX_DT -> t + D < MAX_DT -> sp_bounded D sp -> srcs_ok t srcs -> snd o < t ->
+  0 < t < MAX_DT -> t + D < MAX_DT -> sp_bounded D sp -> srcs_ok t srcs -> o_lmt o < t ->
   match w_active w with
-  | None => w = empty_w /\ (forall k lm r, srcs = (Some k, lm) :: r -> lm = t)
+  | None => w = empty_w /\ (forall k lm r, srcs = (Some k, lm) :: r -> lm = t) /\ o = out0
   | Some a => exists c k0, getg a w = Some c /\ w_akey w = Some k0 /\ other_ok w a /\ c_etime c <= t /\
                            pre_ok t (due t (views sp t srcs (c_inst c)) (c_inst c)) c /\
                            i_samp (c_inst c) <= t /\ body_bounded D (br_body (i_br (c_inst c)))
   end ->
   let m := mkM t srcs w t n o lg 0 in
-  let m' := rec_phase t (switch_evaluate sp t m) in
+  let m' := rec_phase sp t (switch_evaluate sp t m) in
   abs m' = spec_se sp t (abs m) /\ (m_err m' = 0 -> Good D m') /\ (m_err m' = 0 \/ m_err m' = 2).
 Proof.
   intros Ht HD Hsp Hsrcs Ho Hw m m'.
@@ -831,19 +860,19 @@ Proof.
   destruct (w_active w) as [a|] eqn:Ha.
   - (* an active branch exists *)
     destruct Hw as (c & k0 & Hg & Hk & Hoth & Het & Hpre & Hsamp & Hb).
-    assert (Habs : abs m = mkS t srcs (Some (k0, c_inst c)) n (outs_of lg) (cycles_of lg) 0).
+    assert (Habs : abs m = mkS t srcs (Some (k0, c_inst c)) n o (outs_of lg) (cycles_of lg) 0).
     { unfold abs, m. cbn [m_w m_now m_srcs m_ninst m_log m_err]. rewrite Ha, Hk, Hg. reflexivity. }
     assert (Hstore : store_ok t w).
     { unfold store_ok. rewrite Ha. exists c. repeat split; auto. apply Hpre. }
     assert (NoSwitch : select_phase sp t m = m -> spec_switch sp t (abs m) = abs m ->
-              abs (rec_phase t (if negb (m_err (select_phase sp t m) =? 0) then select_phase sp t m else eval_phase sp t (select_phase sp t m))) =
-              (if negb (s_err (spec_switch sp t (abs m)) =? 0) then spec_switch sp t (abs m) else spec_eval sp t (spec_switch sp t (abs m))) /\
-              (m_err (rec_phase t (if negb (m_err (select_phase sp t m) =? 0) then select_phase sp t m else eval_phase sp t (select_phase sp t m))) = 0 ->
-               Good D (rec_phase t (if negb (m_err (select_phase sp t m) =? 0) then select_phase sp t m else eval_phase sp t (select_phase sp t m)))) /\
-              (m_err (rec_phase t (if negb (m_err (select_phase sp t m) =? 0) then select_phase sp t m else eval_phase sp t (select_phase sp t m))) = 0 \/
-               m_err (rec_phase t (if negb (m_err (select_phase sp t m) =? 0) then select_phase sp t m else eval_phase sp t (select_phase sp t m))) = 2)).
+              abs (rec_phase sp t (if negb (m_err (select_phase sp t m) =? 0) then select_phase sp t m else eval_phase sp t (select_phase sp t m))) =
+              (if negb (s_err (spec_switch sp t (abs m)) =? 0) then spec_switch sp t (abs m) else spec_rec sp t (spec_eval sp t (spec_switch sp t (abs m)))) /\
+              (m_err (rec_phase sp t (if negb (m_err (select_phase sp t m) =? 0) then select_phase sp t m else eval_phase sp t (select_phase sp t m))) = 0 ->
+               Good D (rec_phase sp t (if negb (m_err (select_phase sp t m) =? 0) then select_phase sp t m else eval_phase sp t (select_phase sp t m)))) /\
+              (m_err (rec_phase sp t (if negb (m_err (select_phase sp t m) =? 0) then select_phase sp t m else eval_phase sp t (select_phase sp t m))) = 0 \/
+               m_err (rec_phase sp t (if negb (m_err (select_phase sp t m) =? 0) then select_phase sp t m else eval_phase sp t (select_phase sp t m))) = 2)).
     { intros E1 E2. rewrite E1, E2. rewrite Habs. unfold m at 1 3 5 7. cbn [m_err s_err Z.eqb negb].
-      destruct (eval_rec_refines sp D t srcs w n o lg a c k0 (proj1 Ht) HD Hsrcs Ho Ha Hg Hk Hoth Hpre Hsamp Hb) as [Eabs HG].
+      destruct (eval_rec_refines sp D t srcs w n o lg a c k0 (proj1 Ht) HD Hsrcs (Z.lt_le_incl _ _ Ho) Ha Hg Hk Hoth Hpre Hsamp Hb) as [Eabs HG].
       fold m in Eabs, HG. rewrite Habs in Eabs.
       split; [exact Eabs|]. split; [intros _; exact HG|left; apply HG]. }
     subst srcs. destruct s0 as [[k|] lm].
@@ -853,13 +882,13 @@ Proof.
         destruct (s_reload sp || negb (k =? k0)) eqn:Eneed.
         -- unfold select_phase. cbn [m_srcs m_w m]. rewrite Ha, Hk. rewrite Z.eqb_refl. cbn [orb is_some negb andb].
            rewrite Eneed.
-           rewrite Habs. unfold spec_switch. cbn [s_srcs key_tick s_cur option_map fst need_switch s_ninst s_now s_outs s_cycles s_err].
+           rewrite Habs. unfold spec_switch. cbn [s_srcs key_tick s_cur option_map fst need_switch s_ninst s_now s_out s_outs s_cycles s_err].
            rewrite Z.eqb_refl, Eneed.
            destruct (select_branch sp k) as [br|] eqn:Esel.
-           ++ destruct (act_path sp D t ((Some k, t) :: [s1; s2]) w n o lg k br Ht HD Hsrcs Ho Hstore (Hsp k br Esel)) as (E0 & Eabs & HG).
+           ++ destruct (act_path sp D t ((Some k, t) :: [s1; s2]) w n o lg k br Ht HD Hsrcs (Z.lt_le_incl _ _ Ho) Hstore (Hsp k br Esel)) as (E0 & Eabs & HG).
               subst m.
               match goal with |- context [m_err ?X =? 0] => replace (m_err X) with 0 by (symmetry; exact E0) end.
-              cbn [Z.eqb negb].
+              cbn [Z.eqb negb]. rewrite Ha in Eabs.
               split; [exact Eabs|]. split; [intros _; exact HG|left; apply HG].
            ++ unfold set_err, rec_phase. cbn [m_err Z.eqb negb]. unfold abs. cbn [m_w m_now m_srcs m_ninst m_log m_err m].
               rewrite Ha, Hk, Hg. split; [reflexivity|]. split; [discriminate|right; reflexivity].
@@ -873,15 +902,15 @@ Proof.
         -- rewrite Habs. unfold spec_switch. cbn [s_srcs key_tick]. rewrite Elm. reflexivity.
     + apply NoSwitch; [reflexivity|]. rewrite Habs. reflexivity.
   - (* no branch has been selected yet *)
-    destruct Hw as [Ew Hkey]. subst w.
-    assert (Habs : abs m = mkS t srcs None n (outs_of lg) (cycles_of lg) 0) by reflexivity.
+    destruct Hw as (Ew & Hkey & Eo). subst w.
+    assert (Habs : abs m = mkS t srcs None n o (outs_of lg) (cycles_of lg) 0) by reflexivity.
     subst srcs. destruct s0 as [[k|] lm].
     + assert (lm = t) by (eapply Hkey; reflexivity). subst lm.
       unfold select_phase. cbn [m_srcs m_w m empty_w w_active w_akey]. rewrite Z.eqb_refl. cbn [orb is_some negb andb].
-      rewrite Habs. unfold spec_switch. cbn [s_srcs key_tick s_cur option_map fst need_switch s_ninst s_now s_outs s_cycles s_err].
+      rewrite Habs. unfold spec_switch. cbn [s_srcs key_tick s_cur option_map fst need_switch s_ninst s_now s_out s_outs s_cycles s_err].
       rewrite Z.eqb_refl.
       destruct (select_branch sp k) as [br|] eqn:Esel.
-      * destruct (act_path sp D t ((Some k, t) :: [s1; s2]) empty_w n o lg k br Ht HD Hsrcs Ho eq_refl (Hsp k br Esel)) as (E0 & Eabs & HG).
+      * destruct (act_path sp D t ((Some k, t) :: [s1; s2]) empty_w n o lg k br Ht HD Hsrcs (Z.lt_le_incl _ _ Ho) eq_refl (Hsp k br Esel)) as (E0 & Eabs & HG).
         subst m.
               match goal with |- context [m_err ?X =? 0] => replace (m_err X) with 0 by (symmetry; exact E0) end.
               cbn [Z.eqb negb].
@@ -889,11 +918,11 @@ Proof.
       * unfold set_err, rec_phase. cbn [m_err Z.eqb negb]. split; [reflexivity|]. split; [discriminate|right; reflexivity].
     + change (select_phase sp t m) with m. rewrite Habs. unfold spec_switch. cbn [s_srcs key_tick].
       subst m. cbn [m_err s_err Z.eqb negb]. unfold eval_phase, spec_eval. cbn [m_w empty_w w_active s_cur].
-      rewrite rec_phase_noop by exact Ho.
+      rewrite rec_phase_noop by exact Ho. rewrite spec_rec_noop by exact Ho.
       split; [reflexivity|]. split; [|left; reflexivity]. intros _.
       unfold Good. cbn [m_now m_err m_srcs m_out m_w m_pslot empty_w w_active].
       split; [lia|]. split; [reflexivity|]. split; [exact Hsrcs|]. split; [lia|].
-      split; [reflexivity|]. split; [lia|reflexivity].
+      split; [reflexivity|]. split; [lia|]. split; [reflexivity|exact Eo].
 Qed.
 
 (* ---- an input of an idle instance reads "modified" exactly when its source ticked ---- *)
@@ -949,7 +978,7 @@ Proof.
     - destruct Hwhy as [Hw|Hw]; [rewrite Etk in Hw; congruence|]. rewrite Hw. reflexivity. }
   rewrite E1. clear E1.
   assert (Ht : 0 < t < MAX_DT) by lia.
-  assert (Ho : snd o < t) by lia.
+  assert (Ho : o_lmt o < t) by lia.
   destruct (w_active w) as [a|] eqn:Ha.
   - destruct Hact as (c & k & Hg & Hk & Hidle & Hoth & Hb).
     destruct Hidle as (Ist & Iet & Isamp & Iwf & Iev).
@@ -971,7 +1000,7 @@ Proof.
         + destruct (now_first _ _ Esn) as (e & r0 & Eev & Ee). rewrite Eev in Iev. destruct Iev as [_ ->]. exact Ee.
         + destruct (events (i_sch (c_inst c))) as [|e r0]; [destruct Iev; lia|apply Iev]. }
     assert (Hmid : match w_active (setg a (Some c2) w) with
-                   | None => setg a (Some c2) w = empty_w /\ (forall k lm r, srcs' = (Some k, lm) :: r -> lm = t)
+                   | None => setg a (Some c2) w = empty_w /\ (forall k lm r, srcs' = (Some k, lm) :: r -> lm = t) /\ o = out0
                    | Some a0 => exists c0 k0', getg a0 (setg a (Some c2) w) = Some c0 /\ w_akey (setg a (Some c2) w) = Some k0' /\
                                   other_ok (setg a (Some c2) w) a0 /\ c_etime c0 <= t /\
                                   pre_ok t (due t (views sp t srcs' (c_inst c0)) (c_inst c0)) c0 /\
@@ -985,17 +1014,17 @@ Proof.
     etransitivity; [exact Eabs|]. f_equal.
     unfold abs. cbn [m_w m_now m_srcs m_ninst m_log m_err].
     rewrite active_setg, akey_setg, Ha, Hk. cbv iota. rewrite getg_setg, Hg, I2. reflexivity.
-  - destruct Hact as (Ew & Hps & Hkey). subst w.
+  - destruct Hact as (Ew & Hps & Hkey & Eo). subst w.
     unfold notify_child. cbn [m_w getg empty_w w_g0 w_g1 m_err Z.eqb negb m_pslot]. rewrite Z.eqb_refl.
     unfold add_log. cbn [rev app m_now m_srcs m_w m_pslot m_ninst m_out m_log m_err].
     assert (Hmid : match w_active empty_w with
-                   | None => empty_w = empty_w /\ (forall k lm r, srcs' = (Some k, lm) :: r -> lm = t)
+                   | None => empty_w = empty_w /\ (forall k lm r, srcs' = (Some k, lm) :: r -> lm = t) /\ o = out0
                    | Some a0 => exists c0 k0', getg a0 empty_w = Some c0 /\ w_akey empty_w = Some k0' /\
                                   other_ok empty_w a0 /\ c_etime c0 <= t /\
                                   pre_ok t (due t (views sp t srcs' (c_inst c0)) (c_inst c0)) c0 /\
                                   i_samp (c_inst c0) <= t /\ body_bounded D (br_body (i_br (c_inst c0)))
                    end).
-    { cbn [w_active empty_w]. split; [reflexivity|]. intros kk lm r Hh. unfold srcs' in Hh. cbn [apply_ticks] in Hh.
+    { cbn [w_active empty_w]. split; [reflexivity|]. split; [|exact Eo]. intros kk lm r Hh. unfold srcs' in Hh. cbn [apply_ticks] in Hh.
       injection Hh as Hh _. destruct k0 as [v|]; simpl in Hh.
       - injection Hh as _ Hl. auto.
       - simpl in Hkey. rewrite Hh in Hkey. discriminate. }
@@ -1124,7 +1153,7 @@ Proof.
   intros Hs. unfold Good, mirror_init. cbn [m_now m_err m_srcs m_out m_w m_pslot empty_w w_active].
   split; [lia|]. split; [reflexivity|]. split.
   - exists no_src, no_src, no_src. unfold init_srcs, no_src, MIN_DT. simpl. repeat split; lia.
-  - unfold no_src, MIN_DT. simpl. repeat split; lia.
+  - unfold out0, no_src, MIN_DT. simpl. repeat split; lia.
 Qed.
 
 (* MAIN REFINEMENT: for every branch set, key history, input history, window and
@@ -1246,7 +1275,7 @@ Lemma follows_active_gen sp h D start end_ fuel :
   let m := mirror_run sp h start end_ fuel in
   let s := spec_run sp h start end_ fuel in
   outs_of (m_log m) = s_outs s /\ cycles_of (m_log m) = s_cycles s /\ m_err m = s_err s /\
-  s_cur (abs m) = s_cur s.
+  s_cur (abs m) = s_cur s /\ m_out m = s_out s.
 Proof.
   intros Hn Hsp Hs He HeD m s.
   pose proof (refines sp h D start end_ fuel Hn Hsp Hs He HeD) as R. fold m s in R.
@@ -1258,6 +1287,9 @@ Definition active_inst (m : mst) : option (Z * inst) := s_cur (abs m).
 
 Lemma spec_eval_err sp t s : s_err (spec_eval sp t s) = s_err s.
 Proof. unfold spec_eval. destruct (s_cur s) as [[k i]|]; auto. destruct (alone_cycle sp t (s_srcs s) i). reflexivity. Qed.
+
+Lemma spec_rec_err sp t s : s_err (spec_rec sp t s) = s_err s.
+Proof. unfold spec_rec. destruct (o_lmt (s_out s) =? t); reflexivity. Qed.
 
 Lemma abs_akey D m : Good D m -> option_map fst (s_cur (abs m)) = w_akey (m_w m).
 Proof.
@@ -1292,22 +1324,22 @@ Proof.
   pose proof (abs_akey D m G) as Hak.
   destruct (next_ok sp h D m Hn G (proj1 (proj2 Hdue))) as (Hlt & _ & _). fold t in Hlt.
   destruct G as (_ & Herr & (s0 & s1 & s2 & Es & L0 & _) & _).
-  unfold spec_cycle, spec_switch. cbn [s_srcs s_cur s_err s_ninst s_now s_outs s_cycles].
+  unfold spec_cycle, spec_switch. cbn [s_srcs s_cur s_err s_ninst s_now s_out s_outs s_cycles].
   change (s_srcs (abs m)) with (m_srcs m). change (s_err (abs m)) with (m_err m). rewrite Es, Herr, Hak.
   destruct (tick_of sp h 0 t) as [k|] eqn:Etk.
   - rewrite (key_tick_ticked sp h t s0 s1 s2 k Etk).
     destruct (need_switch sp (w_akey (m_w m)) k) eqn:Eneed.
     + destruct (select_branch sp k) as [br|] eqn:Esel.
-      * cbn [s_err Z.eqb negb]. rewrite spec_eval_err. cbn [s_err]. split; [discriminate|].
+      * cbn [s_err Z.eqb negb]. rewrite spec_rec_err, spec_eval_err. cbn [s_err]. split; [discriminate|].
         intros (k' & Hk' & _ & Hc & Hd). injection Hk' as <-.
         pose proof (proj2 (select_branch_none sp k) (conj Hc Hd)). congruence.
       * cbn [s_err Z.eqb negb]. split; auto. intros _. exists k.
         destruct (proj1 (select_branch_none sp k) Esel). auto.
-    + cbn [s_err Z.eqb negb]. rewrite spec_eval_err. cbn [s_err]. split; [discriminate|].
+    + cbn [s_err Z.eqb negb]. rewrite spec_rec_err, spec_eval_err. cbn [s_err]. split; [discriminate|].
       intros (k' & Hk' & Hn' & _). injection Hk' as <-. congruence.
   - match goal with |- context [key_tick ?a ?b] =>
       replace (key_tick a b) with (@None Z) by (symmetry; apply key_tick_quiet; [exact Etk|lia]) end.
-    cbn [s_err Z.eqb negb]. rewrite spec_eval_err. cbn [s_err]. split; [discriminate|].
+    cbn [s_err Z.eqb negb]. rewrite spec_rec_err, spec_eval_err. cbn [s_err]. split; [discriminate|].
     intros (k' & Hk' & _). discriminate.
 Qed.
 
@@ -1319,24 +1351,68 @@ Lemma new_branch_gen sp h D end_ m k br :
   tick_of sp h 0 t = Some k -> need_switch sp (w_akey (m_w m)) k = true -> select_branch sp k = Some br ->
   let srcs' := apply_ticks t (m_srcs m) (ticks_at sp h t) in
   let m' := mirror_cycle sp h t m in
+  let run := alone_cycle sp t srcs' (fst (inst_start t (fresh_inst br (m_ninst m) t))) in
+  let emptied := match active_inst m with Some _ => reset_out (s_set sp) t (m_out m) | None => m_out m end in
   m_err m' = 0 /\ m_ninst m' = m_ninst m + 1 /\
-  active_inst m' = Some (k, fst (alone_cycle sp t srcs' (fst (inst_start t (fresh_inst br (m_ninst m) t))))).
+  active_inst m' = Some (k, fst run) /\
+  m_out m' = match snd run with Some v => emit_out (s_set sp) t v emptied | None => emptied end.
 Proof.
-  intros Hn Hsp He HeD G Hdue t Etk Eneed Esel srcs' m'.
+  intros Hn Hsp He HeD G Hdue t Etk Eneed Esel srcs' m' run emptied.
   destruct (cycle_from_good sp h D end_ m Hn Hsp He HeD G Hdue) as (Eabs & _ & _). fold t m' in Eabs.
   pose proof (abs_akey D m G) as Hak.
   destruct G as (_ & Herr & (s0 & s1 & s2 & Es & _) & _).
-  assert (E : abs m' = spec_eval sp t (mkS t srcs' (Some (k, fst (inst_start t (fresh_inst br (m_ninst m) t))))
-                                         (m_ninst m + 1) (outs_of (m_log m)) (t :: cycles_of (m_log m)) 0)).
-  { rewrite Eabs. unfold spec_cycle, spec_switch. cbn [s_srcs s_cur s_err s_ninst s_now s_outs s_cycles].
+  assert (E : abs m' = spec_rec sp t (spec_eval sp t
+                         (mkS t srcs' (Some (k, fst (inst_start t (fresh_inst br (m_ninst m) t))))
+                              (m_ninst m + 1) emptied (outs_of (m_log m)) (t :: cycles_of (m_log m)) 0))).
+  { rewrite Eabs. unfold spec_cycle, spec_switch. cbn [s_srcs s_cur s_err s_ninst s_now s_out s_outs s_cycles].
     change (s_srcs (abs m)) with (m_srcs m). change (s_err (abs m)) with (m_err m).
-    change (s_ninst (abs m)) with (m_ninst m). fold srcs'. unfold srcs'. rewrite Es, Herr, Hak.
+    change (s_ninst (abs m)) with (m_ninst m). change (s_out (abs m)) with (m_out m).
+    fold srcs'. unfold srcs'. rewrite Es, Herr, Hak.
     rewrite (key_tick_ticked sp h t s0 s1 s2 k Etk), Eneed, Esel. reflexivity. }
   unfold active_inst.
-  change (m_err m') with (s_err (abs m')). change (m_ninst m') with (s_ninst (abs m')). rewrite E.
-  unfold spec_eval. cbn [s_cur s_srcs].
-  destruct (alone_cycle sp t srcs' (fst (inst_start t (fresh_inst br (m_ninst m) t)))) as [i' em].
-  repeat split; reflexivity.
+  change (m_err m') with (s_err (abs m')). change (m_ninst m') with (s_ninst (abs m')).
+  change (m_out m') with (s_out (abs m')). rewrite E.
+  unfold spec_rec, spec_eval. cbn [s_cur s_srcs s_out s_now s_ninst s_outs s_cycles s_err]. fold run.
+  destruct run as [i' em]. cbn [fst snd s_out].
+  match goal with |- context [if ?b then _ else _] => destruct b end; repeat split; reflexivity.
+Qed.
+
+(* the collection shape: after a selection the switch-owned set holds exactly what
+   the NEW instance published at the switch time, whatever it held before *)
+Lemma fresh_container_gen sp h D end_ m k br :
+  (s_nts sp <= 2)%nat -> sp_bounded D sp -> end_ <= MAX_DT -> end_ + D <= MAX_DT ->
+  Good D m -> cycle_due sp h end_ m ->
+  let t := mirror_next sp h m in
+  tick_of sp h 0 t = Some k -> need_switch sp (w_akey (m_w m)) k = true -> select_branch sp k = Some br ->
+  s_set sp = true ->
+  let srcs' := apply_ticks t (m_srcs m) (ticks_at sp h t) in
+  let m' := mirror_cycle sp h t m in
+  o_set (m_out m') = opt_list (snd (alone_cycle sp t srcs' (fst (inst_start t (fresh_inst br (m_ninst m) t))))) /\
+  o_lmt (m_out m') = (if is_some (active_inst m) || is_some (snd (alone_cycle sp t srcs' (fst (inst_start t (fresh_inst br (m_ninst m) t)))))
+                      then t else o_lmt (m_out m)) /\
+  (* the delta the recorder reports at the switch time is taken against what the replaced instance had published *)
+  (is_some (active_inst m) = true -> o_old (m_out m') = o_set (m_out m)).
+Proof.
+  intros Hn Hsp He HeD G Hdue t Etk Eneed Esel Hset srcs' m'.
+  destruct (new_branch_gen sp h D end_ m k br Hn Hsp He HeD G Hdue Etk Eneed Esel) as (_ & _ & _ & Eo).
+  fold t srcs' m' in Eo.
+  destruct (next_ok sp h D m Hn G (proj1 (proj2 Hdue))) as (Hlt & _ & _). fold t in Hlt.
+  assert (Hem : o_set (match active_inst m with Some _ => reset_out true t (m_out m) | None => m_out m end) = []).
+  { unfold active_inst, abs. cbn [s_cur]. destruct G as (_ & _ & _ & _ & Hact).
+    destruct (w_active (m_w m)) as [a|].
+    - destruct Hact as (c & k0 & Hg & Hk & _). rewrite Hk, Hg. reflexivity.
+    - destruct Hact as (_ & _ & _ & ->). reflexivity. }
+  assert (Hlm : o_lmt (m_out m) < t) by (destruct G as (_ & _ & _ & Hl & _); lia).
+  rewrite Eo, Hset. clear Eo. split; [|split].
+  - destruct (snd (alone_cycle sp t srcs' _)) as [v|]; [|exact Hem].
+    unfold emit_out. cbn [o_set]. unfold touch.
+    match goal with |- context [if ?b then _ else _] => destruct b end; cbn [o_set]; rewrite Hem; reflexivity.
+  - destruct (active_inst m); destruct (snd (alone_cycle sp t srcs' _)); cbn [is_some orb];
+      unfold emit_out, reset_out, touch; cbn [o_lmt]; reflexivity.
+  - intros Ha. destruct (active_inst m); [|discriminate].
+    unfold reset_out at 1 2. unfold touch at 2 4. replace (o_lmt (m_out m) <? t) with true by lia.
+    destruct (snd (alone_cycle sp t srcs' _)); [|reflexivity].
+    unfold emit_out, touch. cbn [o_lmt o_old o_set o_val]. rewrite Z.ltb_irrefl. reflexivity.
 Qed.
 
 (* what a freshly selected instance is, and what it sees *)
@@ -1380,10 +1456,13 @@ Proof. unfold inst_start. destruct (b_sos (br_body (i_br i))); auto. destruct (s
 Definition sid_ok (s : sst) : Prop :=
   match s_cur s with Some (_, i) => i_id i < s_ninst s | None => True end.
 
+Lemma spec_rec_id sp t s : sid_ok s -> sid_ok (spec_rec sp t s).
+Proof. unfold spec_rec, sid_ok. destruct (o_lmt (s_out s) =? t); auto. Qed.
+
 Lemma spec_cycle_id sp h t s : sid_ok s -> sid_ok (spec_cycle sp h t s).
 Proof.
   intros H. unfold spec_cycle.
-  set (s0 := mkS t _ (s_cur s) (s_ninst s) (s_outs s) (t :: s_cycles s) (s_err s)).
+  set (s0 := mkS t _ (s_cur s) (s_ninst s) (s_out s) (s_outs s) (t :: s_cycles s) (s_err s)).
   assert (H0 : sid_ok s0) by exact H.
   assert (H1 : sid_ok (spec_switch sp t s0)).
   { unfold spec_switch. destruct (key_tick (s_srcs s0) t) as [k|]; auto.
@@ -1391,6 +1470,7 @@ Proof.
     destruct (select_branch sp k) as [br|]; auto.
     unfold sid_ok. cbn [s_cur s_ninst]. rewrite inst_start_id. simpl. lia. }
   destruct (negb (s_err (spec_switch sp t s0) =? 0)); auto.
+  apply spec_rec_id.
   unfold spec_eval, sid_ok in *. destruct (s_cur (spec_switch sp t s0)) as [[k i]|] eqn:Ec; [|rewrite Ec; exact I].
   unfold alone_cycle. destruct (due t (views sp t (s_srcs (spec_switch sp t s0)) i) i); cbn [s_cur s_ninst fst]; auto.
   rewrite node_eval_id. exact H1.
@@ -1495,9 +1575,26 @@ Section Reachable.
     tick_of sp h 0 t = Some k -> need_switch sp (w_akey (m_w m)) k = true -> select_branch sp k = Some br ->
     let srcs' := apply_ticks t (m_srcs m) (ticks_at sp h t) in
     let m' := mirror_cycle sp h t m in
+    let run := alone_cycle sp t srcs' (fst (inst_start t (fresh_inst br (m_ninst m) t))) in
+    let emptied := match active_inst m with Some _ => reset_out (s_set sp) t (m_out m) | None => m_out m end in
     m_err m' = 0 /\ m_ninst m' = m_ninst m + 1 /\
-    active_inst m' = Some (k, fst (alone_cycle sp t srcs' (fst (inst_start t (fresh_inst br (m_ninst m) t))))).
+    active_inst m' = Some (k, fst run) /\
+    m_out m' = match snd run with Some v => emit_out (s_set sp) t v emptied | None => emptied end.
   Proof. intros m Hd. apply (new_branch_gen sp h D end_ m k br Hn Hsp He HeD (reach_due_good n Hd) Hd). Qed.
+
+  Lemma fresh_container_reach n k br :
+    let m := reach sp h start end_ n in
+    cycle_due sp h end_ m ->
+    let t := mirror_next sp h m in
+    tick_of sp h 0 t = Some k -> need_switch sp (w_akey (m_w m)) k = true -> select_branch sp k = Some br ->
+    s_set sp = true ->
+    let srcs' := apply_ticks t (m_srcs m) (ticks_at sp h t) in
+    let m' := mirror_cycle sp h t m in
+    let run := alone_cycle sp t srcs' (fst (inst_start t (fresh_inst br (m_ninst m) t))) in
+    o_set (m_out m') = opt_list (snd run) /\
+    o_lmt (m_out m') = (if is_some (active_inst m) || is_some (snd run) then t else o_lmt (m_out m)) /\
+    (is_some (active_inst m) = true -> o_old (m_out m') = o_set (m_out m)).
+  Proof. intros m Hd. apply (fresh_container_gen sp h D end_ m k br Hn Hsp He HeD (reach_due_good n Hd) Hd). Qed.
 
   Lemma reselect_reach n k br :
     let m := reach sp h start end_ n in
@@ -1509,7 +1606,7 @@ Section Reachable.
                (forall k0 i0, active_inst m = Some (k0, i0) -> i_id i0 < i_id i').
   Proof.
     intros m Hd t Etk Eneed Esel m'.
-    destruct (new_branch_reach n k br Hd Etk Eneed Esel) as (_ & _ & Ea). fold m t m' in Ea.
+    destruct (new_branch_reach n k br Hd Etk Eneed Esel) as (_ & _ & Ea & _). fold m t m' in Ea.
     eexists. split; [exact Ea|].
     assert (Eid : i_id (fst (alone_cycle sp t (apply_ticks t (m_srcs m) (ticks_at sp h t))
                                  (fst (inst_start t (fresh_inst br (m_ninst m) t))))) = m_ninst m).
